@@ -245,6 +245,70 @@ func parseSRs(s string) []string {
 	return strings.Split(s, ",")
 }
 
+// statcOracle: concurrent delivery with slow callbacks – every requested ref held by a reachable read
+// replica is passed to the callback exactly once, nothing else is, and the callbacks are serialised
+// (replica.StatBlobs calls fn under its mutex: "serializes calls to fn")
+func (g *gen) statcOracle(refs []blob.Ref, mode, out string) {
+	f := strings.Fields(out)
+	if len(f) != 3 {
+		g.fail("statc-bad-result", mode, "<refs> ok|err serial", out)
+		return
+	}
+	count := map[string]int{}
+	for _, k := range parseSRs(f[0]) {
+		count[k]++
+	}
+	anyDown := false
+	for _, id := range g.w.reads {
+		if g.w.subs[id].down.Load() {
+			anyDown = true
+		}
+	}
+	overlap := false
+	want := map[string]bool{}
+	for _, br := range refs {
+		holders := 0
+		for _, id := range g.w.reads {
+			if !g.w.subs[id].down.Load() {
+				if _, ok := g.w.subs[id].get(br); ok {
+					holders++
+				}
+			}
+		}
+		if holders > 0 {
+			want[br.Digest()] = true
+		}
+		if holders > 1 {
+			overlap = true
+		}
+	}
+	for k := range want {
+		switch {
+		case count[k] == 0:
+			g.fail("stat-missing", "concurrent replicas, "+mode+" callback: "+k, "reported once", out)
+		case count[k] > 1:
+			g.fail("stat-duplicate", "concurrent replicas, "+mode+" callback: "+k, "reported once", out)
+		}
+	}
+	for k := range count {
+		if !want[k] {
+			g.fail("stat-phantom", k, "not reported", out)
+		}
+	}
+	if f[2] != "serial" {
+		g.fail("stat-callbacks-not-serialised", "concurrent replicas, "+mode+" callback", "one callback at a time", out)
+	}
+	if !anyDown && f[1] != "ok" {
+		g.fail("stat-error-without-fault", "", "ok", out)
+	}
+	if overlap {
+		g.r.Hit("mech:stat-dedup-under-concurrent-delivery/" + mode)
+	}
+	g.r.Distinct(fmt.Sprintf("statc/%s/%d/%d/%v/%v", mode, len(refs), len(want), overlap, anyDown))
+}
+
+var statcModes = []string{"fast", "yield", "yield", "sleep", "block", "block", "block"}
+
 // heldSizes: the sizes of the copies of br on the reachable read replicas
 func (g *gen) heldSizes(br blob.Ref) map[int]bool {
 	m := map[int]bool{}
@@ -545,6 +609,11 @@ func (g *gen) exhaustiveCase(n, min int, kinds []string, order []int, other blob
 	g.fetchOracle(b.br, out)
 	out = g.op(fmt.Sprintf("stat %s,%s -", b.key, other.key))
 	g.statOracle([]blob.Ref{b.br, other.br}, out)
+	if g.r.R.Chance(8) {
+		mode := g.r.R.Pick(statcModes)
+		out = g.op(fmt.Sprintf("statc %s,%s %s", b.key, other.key, mode))
+		g.statcOracle([]blob.Ref{b.br, other.br}, mode, out)
+	}
 	out = g.op("enum - 10")
 	g.enumOracle("-", 10, out)
 	if len(g.r.Res.Samples) < 3 && n == 3 {
@@ -643,6 +712,54 @@ func (g *gen) sizeConflicts() {
 				g.fetchOracle(b.br, out)
 			}
 		}
+	}
+}
+
+// statOverlap: several blobs spread over overlapping read replicas (good and truncated copies, some
+// replicas down), then StatBlobs with all replicas answering concurrently at different speeds and
+// callbacks that are fast / yielding / sleeping / blocking until the other holders have tried to deliver
+func (g *gen) statOverlap(nCases int) {
+	for c := 0; c < nCases; c++ {
+		S := 2 + g.r.R.Intn(4)
+		g.newCase(fmt.Sprintf("statc stores=%d", S))
+		g.op(fmt.Sprintf("stores %d", S))
+		for bi, b := range g.pool {
+			// the first blobs are on (almost) every replica, the others on random subsets
+			for i := 0; i < S; i++ {
+				if (bi < 2 && g.r.R.Chance(85)) || g.r.R.Chance(35) {
+					verb := "put"
+					if len(b.content) > 0 && g.r.R.Chance(10) {
+						verb = "puttr"
+					}
+					g.op(fmt.Sprintf("%s %d %s %s", verb, i, b.key, b.chex))
+				}
+			}
+		}
+		reads := g.shuffle(upto(S))
+		if g.r.R.Chance(30) {
+			reads = g.subset(S)
+		}
+		out := g.op(fmt.Sprintf("cfg 1 %d %s", g.r.R.Intn(S), showNats(reads)))
+		if !strings.HasPrefix(out, "ok ") {
+			g.fail("cfg-valid-rejected", out, "ok", out)
+			continue
+		}
+		if g.r.R.Chance(20) {
+			g.op(fmt.Sprintf("down %d 1", g.r.R.Intn(S)))
+		}
+		for k := 0; k < 4; k++ {
+			var refs []blob.Ref
+			var ks []string
+			for _, bi := range g.shuffle(upto(len(g.pool)))[:1+g.r.R.Intn(4)] {
+				refs = append(refs, g.pool[bi].br)
+				ks = append(ks, g.pool[bi].key)
+			}
+			mode := g.r.R.Pick(statcModes)
+			out := g.op(fmt.Sprintf("statc %s %s", strings.Join(ks, ","), mode))
+			g.statcOracle(refs, mode, out)
+		}
+		out = g.op(fmt.Sprintf("stat %s,%s -", g.pool[0].key, g.pool[1].key))
+		g.statOracle([]blob.Ref{g.pool[0].br, g.pool[1].br}, out)
 	}
 }
 
@@ -765,7 +882,12 @@ func (g *gen) randomOp(S, n int) {
 		limit := g.r.R.Intn(7)
 		out := g.op(fmt.Sprintf("enum %s %d", after, limit))
 		g.enumOracle(after, limit, out)
-	case x < 86:
+	case x < 83:
+		refs, ks := g.randomKeys()
+		mode := g.r.R.Pick(statcModes)
+		out := g.op(fmt.Sprintf("statc %s %s", ks, mode))
+		g.statcOracle(refs, mode, out)
+	case x < 87:
 		_, ks := g.randomKeys()
 		out := g.op("remove " + ks)
 		g.r.Hit("remove:" + out)
@@ -797,6 +919,7 @@ func (g *gen) malformed() {
 		"recv " + b.key + " " + b.chex + " 0:ok:x,1:ok,2:ok run", "recv " + b.key + " " + b.chex + " - run",
 		"fetch", "fetch " + b.key[:10], "fetch " + b.key + " x", "fetch zz",
 		"stat " + b.key, "stat " + b.key + " 0,1", "stat " + b.key + " 0,1,1", "stat " + b.key + " 0,1,3", "stat x -", "stat " + b.key + ", -",
+		"statc " + b.key, "statc " + b.key + " slow", "statc zz block", "statc " + b.key + " block x",
 		"enum", "enum - x", "enum zz 3", "enum - 1 2", "enum " + b.key[:12] + " 3", "enum - -1",
 		"remove", "remove zz", "remove " + b.key + " x",
 		"dump x", "frobnicate", "RECV",
@@ -817,6 +940,7 @@ func (g *gen) malformed() {
 	g.op("fetch " + b.key)
 	g.op("stat " + b.key + " -")
 	g.op("enum - 3")
+	g.op("statc " + b.key + " block")
 	g.op("remove " + b.key)
 	g.op(fmt.Sprintf("recv %s %s 0:ok run", b.key, b.chex))
 	g.op("cfg 1 0,5 -")
@@ -869,6 +993,11 @@ func Run(r *hk.Run) {
 	}
 	g.probes()
 	g.exhaustive()
+	if r.Thorough() {
+		g.statOverlap(600)
+	} else {
+		g.statOverlap(120)
+	}
 	if r.Thorough() {
 		g.random(5000)
 		r.Res.Exhaustive = true
